@@ -223,7 +223,8 @@ theorem detach_acyclic (hac : Acyclic h) (x : Id) : Acyclic (detach K h x).1 := 
     · exact delitem_acyclic hac _ _
     · exact hac
 
-theorem replaceWith_acyclic (hac : Acyclic h) (x y : Id) : Acyclic (replaceWith K h x y).1 := by
+theorem replaceWith_acyclic (hac : Acyclic h) (x y : Id) (keep : Bool) :
+    Acyclic (replaceWith K h x y keep).1 := by
   unfold replaceWith
   split
   · exact hac
